@@ -387,7 +387,7 @@ def gen_polys_px(rng, cls, w, h):
         outer = (_star(rng, cx, cy, 0.75 * R, R, rng.randint(6, 10)), [_star(rng, cx, cy, 0.45 * R, 0.6 * R)[::-1]])
         if cls == 'hole':
             return [[outer]]
-        island = (_star(rng, cx, cy, 0.2 * R, 0.32 * R), [])
+        island = (_star(rng, cx, cy, 0.15 * R, 0.27 * R), [])
         return [[island, outer] if cls == 'hole_island_first' else [outer, island]]
     if cls in ('multi', 'multi_lines'):
         cs = [(0.25, 0.28), (0.72, 0.6), (0.3, 0.8)][:rng.randint(2, 3)]
@@ -528,6 +528,14 @@ class GeomOracle(object):
                 if not q.is_valid:
                     q = shapely.make_valid(q)
                 out.append(q)
+            # the polygons of one limited_to entry form a MultiPolygon for MapProxy; an island that touches or crosses
+            # the ring of its hole makes that MultiPolygon invalid - what happens then is outside the statement
+            try:
+                simple = [q_ for q_ in out if q_.geom_type == 'Polygon']
+                if len(simple) > 1 and not shapely.geometry.MultiPolygon(simple).is_valid:
+                    raise ValueError('limit geometry is not a valid MultiPolygon')
+            except ValueError:
+                raise
             g = shapely.ops.unary_union(out)
             return g.intersection(box(-64, -64, w + 64, h + 64))
         try:
